@@ -289,6 +289,18 @@ pub fn grammar_program(rng: &mut Rng) -> (Program, bool) {
             return if rng.chance(3, 4) { G::Eq(lhs, c) } else { G::Diseq(c, lhs) };
         }
         if r < 78 {
+            if !scope.is_empty() && rng.chance(1, 3) {
+                // a variable bound to a term written with `_`, and a disequality against an instance
+                // of that term: the constraint that remains talks about the anonymous variable
+                let x = T::Var(*rng.pick(scope));
+                let shape = tree_term(rng, scope, 2, true);
+                let shape = if shape.has_any() { shape } else { T::list(vec![shape, T::Any]) };
+                let inst = shape.map_leaves(&mut |t| match t {
+                    T::Any | T::Var(_) => lit(rng),
+                    other => other.clone(),
+                });
+                return G::Conj(vec![G::Eq(x.clone(), shape), G::Diseq(x, inst)]);
+            }
             return G::Diseq(a, b);
         }
         if !scope.is_empty() && rng.chance(1, 2) {
